@@ -211,7 +211,7 @@ func runC07CacheOnce(c C07Case, seed int64, info *kit.Info) (f *kit.Finding, col
 }
 
 func TestC07_Cache(t *testing.T) {
-	p := kit.Prop[C07Case]{ID: "C07", Name: "Cache", Quick: 20000, Thorough: 1500000, Gen: genC07(60, false), Run: runC07Cache}
+	p := kit.Prop[C07Case]{ID: "C07", Name: "Cache", Quick: 60000, Thorough: 6000000, Gen: genC07(60, false), Run: runC07Cache}
 	p.Execute(t)
 }
 
@@ -306,6 +306,6 @@ func runC07Server(c C07Case, info *kit.Info) *kit.Finding {
 }
 
 func TestC07_Server(t *testing.T) {
-	p := kit.Prop[C07Case]{ID: "C07", Name: "Server", Quick: 3000, Thorough: 200000, Gen: genC07(30, true), Run: runC07Server}
+	p := kit.Prop[C07Case]{ID: "C07", Name: "Server", Quick: 12000, Thorough: 1000000, Gen: genC07(30, true), Run: runC07Server}
 	p.Execute(t)
 }
